@@ -4,12 +4,17 @@ import ast
 from .. import driver, gen, impl
 
 TGT_LEAVES = ["'v0':%(k0)s", "'v1':%(k1)s", "True:%(k2)s", "k3:%(k3)s"]
+# leaves whose text starts or ends like a keyword (a token is a keyword only when it IS one)
+KW_LEAVES = ["org:%(k4)s", "Android:%(k5)s", "notes:%(k6)s", "ORDER:%(k7)s", "role:and", "role:Or", "role:NOT",
+             "band:%(k8)s", "floor:%(k9)s"]
 
 
-def leaf_pool(n_roles=4, with_tgt=True, with_const=True):
+def leaf_pool(n_roles=4, with_tgt=True, with_const=True, with_kw=True):
     pool = ['role:' + r for r in gen.ROLES[:n_roles]]
     if with_tgt:
         pool += TGT_LEAVES[:3]
+    if with_kw:
+        pool += KW_LEAVES
     if with_const:
         pool += ['@', '!']
     return pool
